@@ -627,7 +627,7 @@ func init() {
 		},
 		NBatches: func(t core.Tier) int { return n(t, 16, 64) },
 		Floors: func(t core.Tier) map[string]int {
-			return map[string]int{"evaluations": n(t, 30000, 1500000), "distinct_nontrivial": n(t, 1500, 80000), "accepted_programs": n(t, 600, 30000), "rejected_programs": n(t, 300, 15000), "semantics_agreed": n(t, 500, 25000), "shapes": 8, "sharing_cases": 20}
+			return map[string]int{"evaluations": n(t, 80000, 1500000), "distinct_nontrivial": n(t, 4000, 80000), "accepted_programs": n(t, 1600, 30000), "rejected_programs": n(t, 800, 15000), "semantics_agreed": n(t, 1300, 25000), "shapes": 8, "sharing_cases": 20}
 		},
 		Run: func(c *core.Ctx) {
 			if err := diffrun.Prepare(c.WorkDir()); err != nil {
@@ -641,7 +641,7 @@ func init() {
 				}
 			}
 			rng := c.Rand("cases")
-			total := n(c.Tier, 2400, 120000) / c.NBatches
+			total := n(c.Tier, 6400, 120000) / c.NBatches
 			for i := 0; i < total; i++ {
 				c16Check(c, c16Generate(rng.Int63()))
 			}
